@@ -19,10 +19,10 @@ PLAN = {
     "C01": {"quick": ["struct3", "struct4s", "struct5s", "struct3z", "struct3p", "seg13z", "prims3", "primseg", "seg6s"],
             "thorough": ["struct3", "struct4s", "struct5s", "struct3c", "struct3z", "struct3p", "struct4", "seg13", "seg13z", "seg22", "seg3d", "feat13",
                          "prims3", "primseg"]},
-    "C03": {"quick": ["struct3", "struct4s", "struct5s"], "thorough": ["struct3", "struct4s", "struct5s", "struct4", "seg13"]},
-    "C04": {"quick": ["struct3", "struct4s", "struct5s"], "thorough": ["struct3", "struct4s", "struct5s", "struct4", "seg13"]},
-    "C05": {"quick": ["struct3", "struct4s", "struct5s"], "thorough": ["struct3", "struct4s", "struct5s", "struct4", "seg13"]},
-    "C06": {"quick": ["struct3", "struct4s", "struct5s"], "thorough": ["struct3", "struct4s", "struct5s", "struct4", "seg13"]},
+    "C03": {"quick": ["struct3", "struct4s", "struct5s", "struct4n0"], "thorough": ["struct3", "struct4s", "struct5s", "struct4", "seg13", "struct4n0"]},
+    "C04": {"quick": ["struct3", "struct4s", "struct5s", "struct4n0"], "thorough": ["struct3", "struct4s", "struct5s", "struct4", "seg13", "struct4n0"]},
+    "C05": {"quick": ["struct3", "struct4s", "struct5s", "struct4n0"], "thorough": ["struct3", "struct4s", "struct5s", "struct4", "seg13", "struct4n0"]},
+    "C06": {"quick": ["struct3", "struct4s", "struct5s", "struct4n0"], "thorough": ["struct3", "struct4s", "struct5s", "struct4", "seg13", "struct4n0"]},
     "C07": {"quick": ["seg13", "seg3d", "seg6s"], "thorough": ["seg13", "seg22", "seg3d", "seg13n", "seg6s"]},
     "C08": {"quick": ["seg13", "seg3d", "feat13", "feat3d", "feat333"],
             "thorough": ["seg13", "seg22", "seg3d", "seg13n", "feat13", "feat22", "feat3d", "feat333"]},
